@@ -160,3 +160,19 @@ def oracle(case, reply):
 
 def nontrivial(case, reply):
     return "in=[1" in reply and "." in reply
+
+MANIFEST = {
+    "text": "Proof (T-ann): for every block the annotator model accepts, every environment, every oracle for state-dependent "
+            "reads and every entry stack at least as deep as the declared inputs, instruction-by-instruction execution (an "
+            "independently written pc/stack semantics) does not underflow and its final stack, exit kind, jump target, branch "
+            "condition and fall-through offset are the evaluation of the annotated outputs and exit; declared inputs are "
+            "exactly the deepest slot touched; offset/size/jump-target describe the block; all trees are well formed and "
+            "Expr::walk over the flat encoding visits exactly the tree. Simulation invariant over all opcodes, all block "
+            "lengths, all 256-bit stacks.",
+    "note": "Trusted: Lean kernel; Annot/Model.lean (annotate_one transcribed per opcode, StackWindow ledger) tied structurally "
+            "(inputs, flat output expressions, exit, offset, size, jump_target compared as text for every opcode in every block "
+            "position) to etk-dasm through the public API; Evm/Sem.lean + Evm/Ops.lean are my transcription of the Yellow "
+            "Paper for pc/stack (memory, storage, gas not modelled: their reads are an oracle); hypotheses: table sizes = "
+            "encoded lengths (C17) and block end <= 65536 (pc as u16).",
+    "technique": "Lean 4 simulation proof (symbolic vs concrete execution) + structural differential correspondence + Python reference interpreter as search oracle",
+}
